@@ -237,17 +237,8 @@ def run(ctx, chk):
         f0 = prog.fn(r["scc"][0])
         where = "%s:%d" % (f0.file, f0.line)
         chk.ob("C19.descent", "SCC {%s}: no variable-size alloca" % name, not r["dynamic_allocas"], where, fn=r["scc"][0], key="vla:" + name)
-        if r["scc"] == ["_cbor_builder_append"]:
-            f = prog.fn("_cbor_builder_append")
-            for a, b, c, label, detail in r["edges"]:
-                pops = [p for p in f.calls("_cbor_stack_pop") if f.dominates(p, c)]
-                pushes = [p for p in f.calls("_cbor_stack_push")]
-                ok = bool(pops) and not pushes
-                chk.ob("C19.descent", "recursive append at %s is preceded by a stack pop" % c.loc(), ok, c.loc(), fn=f.name,
-                       key="append-pop:%d" % c.line, detail="" if ok else "recursion on the decoding stack without popping a frame")
-            continue
         unk = [e for e in r["edges"] if e[3] == "unknown"]
-        ok = r["cycle"] is None and not unk
+        ok = r["cycle"] is None   # edges that neither descend nor pop stay in the graph: any cycle through them is reported
         det = ""
         if r["cycle"]:
             det = "cycle that does not descend: " + " -> ".join("%s@%s" % (a, c.loc()) for a, b, c in r["cycle"])
